@@ -9,7 +9,9 @@ RULE = ("S->C: TLC enumerates the decision table of TonConnect_Gen (3 key source
         "verdict (ok, key, error) equal to the table's, no panic. C->S: every concrete proof (table cases, random single-field "
         "substitutions / bit flips of valid proofs; the genuine state-init bag of each of the 17 contracts with every byte of header, root list, "
         "index, cell descriptors and reference indices replaced by b+1, b-1, 00, ff, every truncation at a structural boundary, and data bytes "
-        "sampled 1 in 8/16 (all of them, plus crc/idx containers, in the thorough tier)), CheckPayload on crafted payloads and GeneratePayload + CheckPayload after real "
+        "sampled 1 in 8/16 (all of them, plus crc/idx/stored-hash containers, in the thorough tier); bags written by the specification "
+        "(TonConnect_BagGen: a StateInit root over exotic cells of every type and length around what the type needs) as state-init; "
+        "payloads from GeneratePayload with every byte of nonce, time and tag changed, the time rewritten, an expired one revived), CheckPayload on crafted payloads and GeneratePayload + CheckPayload after real "
         "waiting is recorded with all inputs and judged by TonConnect_Trace from the bytes alone (message hash, EdVerify, state-init "
         "hash via Cells/Boc, HMAC, ages); the facts TLC derives from the bytes must also equal the facts of the table row. "
         "Non-trivial = a Check event; distinct = distinct table rows + distinct mutated proofs.")
@@ -114,13 +116,24 @@ def gen_vectors(ck):
             w = dict(v)
             w.update(vec=len(vecs), rep=rep, seed=ck.seed)
             vecs.append(w)
+    # bags written by the specification: an ordinary StateInit root over exotic cells of every type and length (TonConnect_BagGen)
+    bcfg = "gen/TonConnect_BagGen_full.cfg" if ck.thorough else "gen/TonConnect_BagGen_quick.cfg"
+    bres = ck.tlc_or_infra("TonConnect_BagGen", bcfg, workers=4, name="baggen", timeout=900)
+    bags = bres.vecs()
+    bags.sort(key=lambda v: (v["t"], v["im"], v["dm"], v["len"], v["nrefs"], v["place"]))
+    if len(bags) < 800 or any(b["why"] == "ACCEPTABLE" for b in bags) or len({b["tamper"] for b in bags}) < 14:
+        raise Infra("bag generator incomplete: %d rows" % len(bags))
+    for i, b in enumerate(bags):
+        w = dict(b)
+        w.update(vec=len(vecs), rep=0, seed=ck.seed, src=("si", "si_exit")[i % 2], ver=STD[i % len(STD)], time="fresh")
+        vecs.append(w)
     # vacuity: the table must contain every key source, contract, tampering, and all three verdict classes
     dims = {d: {v[d] for v in rows} for d in ("src", "ver", "tamper", "time")}
     if len(dims["src"]) != 3 or len(dims["ver"]) != 17 or len(dims["tamper"]) < 52 or len(dims["time"]) != 5:
         raise Infra("decision table incomplete: %s" % {k: len(x) for k, x in dims.items()})
     if {v["want"]["v"] for v in rows} != {"accept", "reject", "free"}:
         raise Infra("decision table lacks a verdict class")
-    return rows, vecs
+    return rows + bags, vecs
 
 
 FACT_FIELDS = ["plWf", "plMac", "plFresh", "addrWf", "sigB64", "sigCanon", "prFresh", "domOK", "chain", "sigChain", "siGiven", "siB64",
@@ -191,13 +204,17 @@ def run(ck):
         log("note: some honest proofs of simple wallets are not accepted (reported above)")
     ck.sample({"direction": "S->C", "vector": {k: vecs[0][k] for k in ("src", "ver", "tamper", "time", "want")}, "result": slim(evs[0], 80)})
     # canary S->C: a corrupted expectation must be flagged by the comparison
-    acc = next((e for e in evs if e["want"]["v"] == "accept" and not mismatch(e["want"], e["go"])), None)
-    rej = next((e for e in evs if e["want"]["v"] == "reject" and not mismatch(e["want"], e["go"])), None)
-    if not acc or not rej:
-        raise Infra("no matching accept / reject case to build canaries from")
+    # (built from rows of the table with the result the row requires written in: independent of what the code did)
+    def conform(e):
+        c = copy.deepcopy(e)
+        c["go"] = ({"ok": True, "key": e["want"]["key"], "err": "", "panic": ""} if e["want"]["v"] == "accept" else {"ok": False, "key": "", "err": "e", "panic": ""})
+        c["ps"] = dict(c.get("ps", {}), panic="")
+        return c
+    acc = conform(next(e for e in evs if e["case"] == {"src": "si", "ver": "v4r2", "tamper": "none", "time": "fresh"} and e["want"]["v"] == "accept"))
+    rej = conform(next(e for e in evs if e["case"].get("tamper") == "signer" and e["want"]["v"] == "reject"))
     ck.canary("S->C: expectation accept->reject, reject->accept, other key are flagged",
               mismatch({"v": "reject", "key": ""}, acc["go"]) and mismatch({"v": "accept", "key": acc["want"]["key"]}, rej["go"])
-              and mismatch({"v": "accept", "key": "00" * 32}, acc["go"]))
+              and mismatch({"v": "accept", "key": "00" * 32}, acc["go"]) and not mismatch(acc["want"], acc["go"]) and not mismatch(rej["want"], rej["go"]))
 
     # ------------------------------------------------------------------ C->S: the same concrete proofs judged from their bytes
     shards = []
@@ -257,6 +274,21 @@ def run(ck):
             if e["k"] == "Check" and "vec" in e:
                 # facts from the bytes (B) against the facts of the table row (A): the harness must have built what the row names
                 row = vecs[e["vec"]]
+                if row.get("kind") == "bag":
+                    # the generator's reason for the rejection must be the one the bytes give (the harness presented that very bag)
+                    fb = n["f"]
+                    why = ("no_reading" if not fb["siBoc"] else "layout" if not fb["siLayout"] else "hash" if not fb["siHash"] else
+                           "no_code_or_data" if not (fb["siCode"] and fb["siData"]) else "unknown_code" if fb["siWallet"] == "unknown" else
+                           "no_key" if not fb["siKeyOK"] else "ACCEPTABLE")
+                    if n["v"] != "reject" or why != row["why"] or fb["chain"] != "none" or not fb["sigB64"] or not fb["plMac"]:
+                        inconsistent.append((e["case"], row["why"], why, n["v"]))
+                        continue
+                    if i in bad:
+                        g = e["go"]
+                        ck.report(key_of(e, {"v": "reject", "key": ""}), "state-init bag written by the specification (%s cell of %d bytes, %s): the specification requires a rejection "
+                                  "with an error, Server.CheckProof gave ok=%s key=%s err=%s panic=%s, ParseStateInit panic=%s" % (row["tamper"], row["len"], row["place"], g["ok"], g["key"] or "-",
+                                  g["err"] or "-", g["panic"] or "-", e["ps"]["panic"] or "-"), {"kind": "event", "direction": "C->S", "event": e})
+                    continue
                 fa, fb = row["f"], n["f"]
                 diff = {k: (fa[k], fb[k]) for k in FACT_FIELDS if fa[k] != fb[k]}
                 # the code cell the wallet package puts into a state-init of version V must be the published contract V
@@ -294,12 +326,19 @@ def run(ck):
                 else:
                     g = e["go"]
                     sym = "panic" if g["panic"] else ("accepted" if g["ok"] else "rejected")
-                    ck.report("C19:%s:%s:%s" % ("CheckPayload" if e["k"] == "Payload" else "GeneratePayload", e.get("class", "age=%d,life=%d" % (int(e["now"]) - int(e.get("issued", e["now"])), e["lp"])), sym),
+                    if e["k"] == "Issued" and n["v"] == "malformed":
+                        ck.report("C19:GeneratePayload:tag_is_not_the_hmac_of_nonce_and_time", "GeneratePayload returned a payload whose last 16 bytes are not "
+                                  "HMAC-SHA256(secret, first 16 bytes)[0:16] (or that is not 32 bytes of hex)", {"kind": "event", "direction": "C->S", "event": e})
+                        continue
+                    ck.report("C19:%s:%s:%s" % ("CheckPayload" if e["k"] in ("Payload", "Tampered") else "GeneratePayload", ("issued_" if e["k"] == "Tampered" else "") + e.get("class", "age=%d,life=%d" % (int(e["now"]) - int(e.get("issued", e["now"])), e["lp"])), sym),
                               "%s event: the specification requires %s, the code gave ok=%s err=%s panic=%s" % (e["k"], n["v"], g["ok"], g["err"] or "-", g["panic"] or "-"),
                               {"kind": "event", "direction": "C->S", "event": e})
     if not layout_broken:
         inconsistent += sig_only
-    if inconsistent:
+    flagged = bool(ck.violations or ck.known_hit)      # guards below must not turn reported violations into "no verdict"
+    if inconsistent and flagged:
+        ck.notes.append("%d concrete cases do not realise their decision-table row (secondary to the violations reported)" % len(inconsistent))
+    elif inconsistent:
         raise Infra("%d concrete cases do not realise their decision-table row (harness or table defect), first: %s" % (len(inconsistent), json.dumps(inconsistent[0])[:1500]))
     sweep = collections.Counter(e["case"]["tamper"] for e in pooled if e.get("k") == "Check" and "bag" in e)
     ck.extra["bag_sweep_events"] = sum(sweep.values())
@@ -310,10 +349,11 @@ def run(ck):
     ck.extra["events_by_kind"] = dict(kinds)
     ck.extra["trace_verdicts"] = {"%s:%s" % k: v for k, v in sorted(verd.items())}
     # vacuity of the C->S side
-    if kinds["Payload"] < 30 or kinds["Issued"] < 12 or kinds["Check"] < len(evs) + 100:
+    if kinds["Payload"] < 30 or kinds["Issued"] < 12 or kinds["Tampered"] < 80 or kinds["Check"] < len(evs) + 100:
         raise Infra("driver recorded too little: %s" % dict(kinds))
-    for need in (("Check", "accept"), ("Check", "reject"), ("Check", "free"), ("Payload", "accept"), ("Payload", "reject"), ("Issued", "accept"), ("Issued", "reject")):
-        if not verd[need] and not layout_broken:
+    for need in (("Check", "accept"), ("Check", "reject"), ("Check", "free"), ("Payload", "accept"), ("Payload", "reject"), ("Issued", "accept"), ("Issued", "reject"),
+                 ("Tampered", "reject"), ("Tampered", "free")):
+        if not verd[need] and not flagged:
             raise Infra("no %s event with derived verdict %s: vacuous" % need)
     dsample = next((e for _, de, _, _ in drives for e in de if e["k"] == "Check" and e["case"]["tamper"] != "none"), None)
     if dsample:
@@ -323,7 +363,7 @@ def run(ck):
         ck.sample({"direction": "C->S", "event": isample})
 
     # ------------------------------------------------------------------ canaries for C->S (TLC must reject each corrupted copy)
-    base = next((e for e in evs if e["case"] == {"src": "si", "ver": "v4r2", "tamper": "none", "time": "fresh"} and not mismatch(e["want"], e["go"])), None) or acc
+    base = acc
     def b64flip(hexs, pos):
         raw = bytearray(base64.b64decode(bytes.fromhex(hexs)))
         raw[pos % len(raw)] ^= 0x10
@@ -336,19 +376,21 @@ def run(ck):
     c6 = copy.deepcopy(base); pl = bytes.fromhex(c6["payload"]).decode(); c6["payload"] = (pl[:-1] + ("0" if pl[-1] != "0" else "1")).encode().hex()  # MAC broken
     c7 = copy.deepcopy(rej); c7["go"] = dict(acc["go"])                                          # a rejected proof logged as accepted
     c8 = copy.deepcopy(base); c8["go"] = {"ok": False, "key": "", "err": "", "panic": "boom"}    # a panic
-    pev = next(e for _, de, _, _ in drives for e in de if e["k"] == "Payload" and e["go"]["ok"])
+    pev = copy.deepcopy(next(e for _, de, _, _ in drives for e in de if e["k"] == "Payload" and e.get("class") == "fresh"))
+    pev["go"] = {"ok": True, "key": "", "err": "", "panic": ""}
+    tev = copy.deepcopy(next(e for _, de, _, _ in drives for e in de if e["k"] == "Tampered" and e.get("class") == "time_byte"))
+    tev["go"] = {"ok": True, "key": "", "err": "", "panic": ""}                                  # an altered issued payload logged as accepted
     c9 = copy.deepcopy(pev); c9["go"] = {"ok": False, "key": "", "err": "e", "panic": ""}        # valid payload logged as refused
     c10 = copy.deepcopy(pev); c10["secret"] = ("%02x" % (int(c10["secret"][:2], 16) ^ 1)) + c10["secret"][2:]                              # other secret: accepted payload is not the server's
     cp = os.path.join(ck.work, "canary.ndjson")
-    cans = [c1, c2, c3, c4, c5, c6, c7, c8, c9, c10, base, pev]
+    cans = [c1, c2, c3, c4, c5, c6, c7, c8, c9, c10, tev, base, pev]
     vlib.write_ndjson(cp, cans + [{"k": "End", "events": len(cans)}])
     st = (ck.states, ck.transitions, ck.traces_ok, ck.evaluations)
     _, crej = judge_file(ck, cp, "canary")
     ck.states, ck.transitions, ck.traces_ok, ck.evaluations = st
     got = [r["line"] for r in crej]
-    expect_orig = [11] * (id(base) in bad_ids) + [12] * (id(pev) in bad_ids)      # the originals keep the verdict they had in the run
     ck.canary("C->S: broken signature / other key / altered state-init / expired / other domain / broken MAC / reject logged as accept / panic / "
-              "payload verdict flipped / other secret are rejected, the originals judged as before", got == list(range(1, 11)) + expect_orig)
+              "payload verdict flipped / other secret / altered issued payload accepted are rejected, the conforming originals accepted", got == list(range(1, 12)))
     return ck.finish(rule=RULE, distinct=len(rows) + len(distinct))
 
 
